@@ -266,7 +266,7 @@ def finish(ctx):
 def tier_params(tier):
     if tier == "thorough":
         return {"l_count": 300000, "mixed": 1200, "cb": 320, "twins": 240, "cap": 40000, "max_states": 400}
-    return {"l_count": 6000, "mixed": 160, "cb": 64, "twins": 48, "cap": 6000, "max_states": 250}
+    return {"l_count": 6000, "mixed": 160, "cb": 120, "twins": 48, "cap": 6000, "max_states": 250}
 
 
 def stage_l(ctx, prop=None, count=None):
@@ -685,11 +685,14 @@ def check_C12(ctx):
     ctx.rules += ["L-level: every definition is generated twice (utf8 on/off); both graphs pass the product check against the same reference; leaves equal.",
                   "R-level: twin enums compiled and run on the same valid UTF-8 inputs: Ok items equal, error-covered byte sets equal; byte-mode twin additionally on ill-formed input against the reference. Non-trivial: distinct (definition, input, observation)."]
     stage_l(ctx)
-    cdir, meta, tags = ensure_corpus(ctx, "twins", ["tc"])
-    res = run_shards(cdir, tags["tc"], "twins", ctx.seed, ctx.tier, meta["shards"], cap=tier_params(ctx.tier)["cap"])
-    a = collect_r(ctx, res, {"C12"}, "R:twins:tc")
-    ctx.coverage["evaluations"] += a["cases"]
-    ctx.coverage["distinct_nontrivial"] += a["distinct_cases"]
+    cfgs = ["tc", "tc_safe"] if ctx.tier == "quick" else list(CONFIGS)
+    cdir, meta, tags = ensure_corpus(ctx, "twins", cfgs)
+    for cfg in cfgs:
+        res = run_shards(cdir, tags[cfg], "twins", ctx.seed, ctx.tier, meta["shards"], cap=tier_params(ctx.tier)["cap"])
+        a = collect_r(ctx, res, {"C12"}, f"R:twins:{cfg}")
+        ctx.coverage["evaluations"] += a["cases"]
+        if cfg == cfgs[0]:
+            ctx.coverage["distinct_nontrivial"] += a["distinct_cases"]
 
 
 
@@ -820,8 +823,13 @@ def check_C20(ctx):
     ctx.rules += ["Read-trace hook armed in the tail-call and state-machine drivers: per match attempt (Next/Restart to the next) read offsets never decrease, the first read is at the end of the item just produced, "
                   "reads <= 4*(examined+2)+16; whole corpus workload (every 4th run traced, budget armed on all) plus adversarial repetition patterns ((a|aa)+b, (a*)*b, (a|b)*abb, (x+x+)+y, greedy dot, nested counted) "
                   "on near-miss inputs up to 2^16+7 bytes. Non-trivial: traced runs; evidence carries events seen and the maximal reads/byte ratio observed."]
-    cfgs = ["tc", "sm"] if ctx.tier == "quick" else list(CONFIGS)
-    _, _, _, aggs = stage_stream(ctx, "mixed", cfgs, {"C20"})
+    cfgs = ["tc", "sm", "tc_safe"] if ctx.tier == "quick" else list(CONFIGS)
+    cdir, meta, tags, aggs = stage_stream(ctx, "mixed", cfgs, {"C20"})
+    # partial lexers: after None the next poll must restart where the unfinished item started
+    for cfg in cfgs[:2]:
+        res = run_shards(cdir, tags[cfg], "partial", ctx.seed, ctx.tier, meta["shards"], cap=tier_params(ctx.tier)["cap"])
+        a = collect_r(ctx, res, {"C20"}, f"R:partial:{tags[cfg]}")
+        ctx.coverage["evaluations"] += a["splits"]
     for cfg, a in aggs.items():
         ctx.coverage["evaluations"] += a["cases"]
     first = next(iter(aggs.values()))
